@@ -422,7 +422,7 @@ func (w *c01World) honestSubmission(a chain.Account, f *sFile) (c01Submission, b
 
 func TestC01(t *testing.T) {
 	rec := ev.For("C01")
-	rec.Describe("stateful fork-mode histories (rapid state machine): chunk size in {1,2,3,16,1024}, 1-3 real files of 1..320 chunks (some >100 chunks), MaxProofs 1-4, 2-4 holders submitting the proof derived from the real tree and 1-3 dishonest accounts (with and without provider records) drawing from nine mutation classes: mutated item; genuine proof+data of another chunk; cross-index (proof of leaf j whose decimal index extends the challenged index by two digits, item = those digits as one byte || chunk j, the challenge being steered to 1..3 through the block-gas seed); truncated/extended/permuted/retargeted hash list and wrong Index; garbage JSON; stale or wrong ToProve; right proof addressed to another/unknown file; submission to a full file; plus block advance through reward blocks with funded gauges. Oracle: a reference verifier written from the property (leaf sha256(decimal(i)||hex(item)), path for position i, i = stored challenge, file open or already joined) decides validity of every submission; an invalid one must answer Success=false and change nothing for anybody; after every step list membership / LastProven / ChunkToProve of every (account,file) may differ only for the submitter of a valid accepted proof; at reward blocks every credited account must be listed on a file it has validly proven. Non-trivial = a rejected invalid submission by a non-listed account on a non-full file followed by a reward block that paid out; distinct = distinct traces.",
+	rec.Describe("stateful fork-mode histories (rapid state machine): chunk size in {1,2,3,16,1024}, 1-3 real files of 1..320 chunks (some >100 chunks), MaxProofs 1-7, 2-7 holders (some without a provider registration), attestation forms of 1-5 names, restarts, submitting the proof derived from the real tree and 1-3 dishonest accounts (with and without provider records) drawing from nine mutation classes: mutated item; genuine proof+data of another chunk; cross-index (proof of leaf j whose decimal index extends the challenged index by two digits, item = those digits as one byte || chunk j, the challenge being steered to 1..3 through the block-gas seed); truncated/extended/permuted/retargeted hash list and wrong Index; garbage JSON; stale or wrong ToProve; right proof addressed to another/unknown file; submission to a full file; plus block advance through reward blocks with funded gauges. Oracle: a reference verifier written from the property (leaf sha256(decimal(i)||hex(item)), path for position i, i = stored challenge, file open or already joined) decides validity of every submission; an invalid one must answer Success=false and change nothing for anybody; after every step list membership / LastProven / ChunkToProve of every (account,file) may differ only for the submitter of a valid accepted proof; at reward blocks every credited account must be listed on a file it has validly proven. Non-trivial = a rejected invalid submission by a non-listed account on a non-full file followed by a reward block that paid out; distinct = distinct traces.",
 		"attestation refresh is modelled from the stored form's complete flags (C14 checks those flags against an independent model)",
 		"acceptance of valid proofs is not demanded here (C02 does that); a valid proof may fail without effect")
 	c := chain.New(chain.GenesisOpts{NumAccounts: 1, Balance: sdk.NewCoins(sdk.NewInt64Coin("ujkl", 3_000_000_000_000_000)),
@@ -491,12 +491,12 @@ func TestC01(t *testing.T) {
 		return
 	}
 
-	search(t, rec, "history", budget(1000, 200000), 40, func(rt *rapid.T) {
+	search(t, rec, "history", budget(1600, 240000), 40, func(rt *rapid.T) {
 		chunk := rapid.SampledFrom([]int64{1, 1, 2, 3, 16, 1024}).Draw(rt, "chunkSize")
 		W := rapid.Int64Range(2, 12).Draw(rt, "window")
 		C := rapid.Int64Range(2, 8).Draw(rt, "check")
 		w := newC01World(c, chunk, W, C)
-		nH := rapid.IntRange(2, 5).Draw(rt, "holders")
+		nH := rapid.IntRange(2, 7).Draw(rt, "holders")
 		for i := 0; i < nH; i++ {
 			// posting a proof does not require a provider registration: now and then a holder has none
 			w.addAccount(10+i, true, rapid.IntRange(0, 5).Draw(rt, "holderRegistered") > 0)
@@ -505,9 +505,14 @@ func TestC01(t *testing.T) {
 		for i := 0; i < nD; i++ {
 			w.addAccount(20+i, false, rapid.Bool().Draw(rt, "dishonestRegistered"))
 		}
+		busy := rapid.IntRange(0, 2).Draw(rt, "everybodyProvesFirst") == 0
 		w.setParams(func(p *storagetypes.Params) {
-			p.AttestFormSize = rapid.Int64Range(1, 3).Draw(rt, "formSize")
+			p.AttestFormSize = rapid.Int64Range(1, 5).Draw(rt, "formSize")
 			p.AttestMinToPass = rapid.Int64Range(1, p.AttestFormSize).Draw(rt, "minToPass")
+			if busy && nH >= 4 { // forms of several names that need several signatures, drawn from the whole population
+				p.AttestFormSize = rapid.Int64Range(2, int64(nH)-1).Draw(rt, "formSizeBusy")
+				p.AttestMinToPass = rapid.Int64Range(2, p.AttestFormSize).Draw(rt, "minToPassBusy")
+			}
 		})
 		w.fundGauge(rapid.Int64Range(1_000_000, 1_000_000_000_000).Draw(rt, "gauge"))
 		post := func(rt *rapid.T) {
@@ -521,7 +526,7 @@ func TestC01(t *testing.T) {
 			size := nChunks*chunk - rapid.Int64Range(0, chunk-1).Draw(rt, "short")
 			content := c02Content(size)
 			content[0] = byte(len(w.files) + 1)
-			w.postFile(w.owner, content, rapid.Int64Range(1, 4).Draw(rt, "maxProofs"), 0)
+			w.postFile(w.owner, content, rapid.Int64Range(1, 7).Draw(rt, "maxProofs"), 0)
 		}
 		post(rt)
 		fail := func(sig, msg string) {
@@ -538,6 +543,19 @@ func TestC01(t *testing.T) {
 				}
 			}
 			return out
+		}
+		if busy && len(w.files) > 0 {
+			// a busy start: a file with room for everybody, and every holder joins it at once (so that all of them are active
+			// providers and attestation forms have the whole population to draw from)
+			content := c02Content(3 * chunk)
+			content[0] = 99
+			if f, r := w.postFile(w.owner, content, int64(nH), 0); r.OK() {
+				for _, a := range holders() {
+					if s, ok := w.honestSubmission(a, f); ok {
+						fail(w.submit(s))
+					}
+				}
+			}
 		}
 		rt.Repeat(map[string]func(*rapid.T){
 			"post": post,
